@@ -655,6 +655,15 @@ func genCase(idx int, seed int64, thorough bool) *caseOut {
 
 func main() {
 	r := hlib.Start("C15")
+	if r.IsGen() {
+		text, err := genRacLean(r.Repo)
+		if err != nil {
+			fmt.Fprintln(os.Stderr, "C15 translator:", err)
+			os.Exit(2)
+		}
+		r.WriteGen("C15_Rac.lean", text)
+		return
+	}
 	if pf := os.Getenv("C15_PROF"); pf != "" {
 		f, _ := os.Create(pf)
 		pprof.StartCPUProfile(f)
